@@ -368,3 +368,90 @@ pub fn box_check(b: i32, threads: usize) {
         println!("{}", f);
     }
 }
+
+/// Last sentence of C15: "the sublattice points generated for a supercell of index n are n distinct cosets".
+/// `Transformation::transform_cell` (the user of the Smith-type decomposition) on a one-atom cell for the integer matrix `a`
+/// (det >= 1): the returned cell must have exactly det(a) sites, pairwise different modulo the new lattice.
+pub fn coset_failure(a: &nalgebra::Matrix3<i32>) -> Option<String> {
+    use moyo::base::{Cell, Lattice};
+    use moyo::verif::base::Transformation;
+    use nalgebra::{Matrix3, Vector3};
+    let det = a[(0, 0)] * (a[(1, 1)] * a[(2, 2)] - a[(1, 2)] * a[(2, 1)]) - a[(0, 1)] * (a[(1, 0)] * a[(2, 2)] - a[(1, 2)] * a[(2, 0)])
+        + a[(0, 2)] * (a[(1, 0)] * a[(2, 1)] - a[(1, 1)] * a[(2, 0)]);
+    if det < 1 {
+        return None;
+    }
+    let cell = Cell::new(Lattice { basis: Matrix3::<f64>::identity() * 4.0 }, vec![Vector3::new(0.1, 0.2, 0.3)], vec![1]);
+    let m = *a;
+    let r = crate::util::catch(move || Transformation::from_linear(m).transform_cell(&cell));
+    let (c, _) = match r {
+        Ok(x) => x,
+        Err(e) => return Some(format!("PANIC {}", e)),
+    };
+    if c.num_atoms() != det as usize {
+        return Some(format!("{} sites for index {}", c.num_atoms(), det));
+    }
+    for i in 0..c.num_atoms() {
+        for j in 0..i {
+            let d = (c.positions[i] - c.positions[j]).map(|e| (e - e.round()).abs());
+            if d.x < 1e-6 && d.y < 1e-6 && d.z < 1e-6 {
+                return Some(format!("sites {} and {} of the index-{} supercell coincide modulo the new lattice", j, i, det));
+            }
+        }
+    }
+    None
+}
+
+/// `c15-cosets <bound> <threads> [<maxdet>]`: `coset_failure` over every 3x3 matrix with entries in [-bound, bound] and 1 <= det <= maxdet.
+pub fn cosets_check(b: i32, threads: usize, maxdet: i32) {
+    let side = (2 * b + 1) as i64;
+    let total = side.pow(9);
+    let handles: Vec<_> = (0..threads)
+        .map(|t| {
+            std::thread::spawn(move || {
+                let mut fails: Vec<String> = vec![];
+                let (mut nfail, mut n) = (0u64, 0u64);
+                let mut idx = t as i64;
+                while idx < total {
+                    let mut x = idx;
+                    let mut a = nalgebra::Matrix3::<i32>::zeros();
+                    for k in 0..9 {
+                        a[(k / 3, k % 3)] = (x % side) as i32 - b;
+                        x /= side;
+                    }
+                    idx += threads as i64;
+                    let det = a[(0, 0)] * (a[(1, 1)] * a[(2, 2)] - a[(1, 2)] * a[(2, 1)]) - a[(0, 1)] * (a[(1, 0)] * a[(2, 2)] - a[(1, 2)] * a[(2, 0)])
+                        + a[(0, 2)] * (a[(1, 0)] * a[(2, 1)] - a[(1, 1)] * a[(2, 0)]);
+                    if det < 1 || det > maxdet {
+                        continue;
+                    }
+                    n += 1;
+                    if let Some(why) = coset_failure(&a) {
+                        nfail += 1;
+                        if fails.len() < 5 {
+                            let mut v = vec![];
+                            for i in 0..3 {
+                                for j in 0..3 {
+                                    v.push(a[(i, j)] as i64);
+                                }
+                            }
+                            fails.push(format!("cfail {} : {}", ints(v), why));
+                        }
+                    }
+                }
+                (n, nfail, fails)
+            })
+        })
+        .collect();
+    let (mut n, mut nfail, mut fails) = (0, 0, vec![]);
+    for h in handles {
+        let (k, nf, f) = h.join().unwrap();
+        n += k;
+        nfail += nf;
+        fails.extend(f);
+    }
+    println!("cosets {} evaluated={} failures={}", b, n, nfail);
+    for f in fails.iter().take(10) {
+        println!("{}", f);
+    }
+}
